@@ -18,6 +18,7 @@ from torch.utils._python_dispatch import TorchDispatchMode
 
 from ..common import REPO
 from ..extract import c13_alias
+from ..extract import c13_sites
 
 PKGDIR = os.path.join(os.path.realpath(REPO), "linear_operator") + os.sep
 
@@ -725,6 +726,13 @@ def operations():
     @reg("add_jitter")
     def _(op, D, L, A):
         return op.add_jitter(0.1).to_dense()
+
+    @reg("add_jitter_tensor")
+    def _(op, D, L, A):
+        # extension session 5: the jitter handed over as a 0-d tensor (what gpytorch does); the annotation says `float`, so the
+        # static translator treats the formal as a python scalar — this cell and the site census cover that blind spot
+        A["jit"] = D.pos(1).reshape(())
+        return op.add_jitter(A["jit"]).to_dense()
 
     @reg("add_tensor")
     def _(op, D, L, A):
@@ -1812,8 +1820,24 @@ def run(chk, only=None):
     n_ob = sum(1 for fi in W.fns if c13_alias.is_obligation(W, fi))
     if len(G["okP"]) + len(G["patched"]) + len(G["badP"]) < n_ob or n_ob < 400:
         chk.proof_break("translator(C13)", f"obligation count inconsistent: {n_ob}")
+    # ---- 1b. independent census of the syntactic in-place sites vs the IR (extension session 5)
+    SR = c13_sites.generate(G)
+    chk.extra["inplace_sites"] = len(SR["sites"])
+    chk.extra["inplace_sites_covered_by_ir_writes"] = sum(SR["covered"].values())
+    chk.extra["inplace_sites_reviewed_no_write"] = len(SR["uncovered"])
+    for s_ in c13_sites.unreviewed(SR["uncovered"]):
+        chk.proof_break("translator(C13/sites)", f"in-place site without an IR write and not in the reviewed list: "
+                        f"{s_[0].label} line {s_[1]} [{s_[3]}] {s_[4][:120]}")
+    for idx_, k_ in SR["covered"].items():
+        got_ = c13_sites.count_w(G["bodies"][idx_], G["sigma"])
+        if got_ < k_:
+            chk.proof_break("translator(C13/sites)", f"{W.fns[idx_].label}: {k_} in-place sites but only {got_} write operations "
+                            f"in the emitted IR (Generated.C13.site_rows_ok)")
+    if len(SR["sites"]) < 200 or sum(SR["covered"].values()) < 120:
+        chk.proof_break("translator(C13/sites)", f"site census implausibly small: {len(SR['sites'])} / {sum(SR['covered'].values())}")
     # ---- 2. proofs
     chk.prove("LinOp.Properties.C13", ["LinOp/C13", "LinOp/Generated/C13Table.lean", "LinOp/Generated/C13PTable.lean",
+                                       "LinOp/Generated/C13Sites.lean",
                                        "LinOp/Generated/C13Sigma.lean", "LinOp/Generated/C13PSigma.lean"])
     # ---- 3. Lean analysis vs python mirror on the generated IR
     sample = sorted({fi.idx for fi in W.fns if fi.muts or fi.name in ("linear_cg", "minres", "lanczos_tridiag")} |
@@ -1835,6 +1859,21 @@ def run(chk, only=None):
             if got.get("ok") != "true" or not set(gw) <= set(want_w) or not set(gr) <= set(want_r) or \
                     (tag == "R" and (sorted(gw) != sorted(want_w))):
                 chk.corr_break(f"C13/mirror/{fi.label}", f"Lean analyse gives {o}, python mirror muts={want_w} rets={want_r}", None)
+            else:
+                chk.traces_validated += 1
+    # ---- 3b. Lean countW vs python mirror vs the site census (every function with in-place sites + 40 random ones)
+    wsample = sorted(set(SR["covered"]) | {s_[0].idx for s_ in SR["uncovered"]} | set(chk.rng.sample(range(len(W.fns)), 40)))
+    outs = chk.run_driver("C13", [f"W {i}" for i in wsample])
+    if outs is not None:
+        for i, o in zip(wsample, outs):
+            fi = W.fns[i]
+            want = c13_sites.count_w(G["bodies"][i], G["sigma"]) if G["bodies"][i] is not None else None
+            k_ = SR["covered"].get(i, 0)
+            chk.case(f"countW {fi.label} sites={k_} ir={want}", nontrivial=k_ > 0)
+            if o != f"countW={want}":
+                chk.corr_break(f"C13/sites/mirror/{fi.label}", f"Lean countW gives {o}, python mirror {want}", None)
+            elif want is not None and want < k_:
+                chk.corr_break(f"C13/sites/count/{fi.label}", f"{k_} in-place sites in the source, {want} write operations in the IR", None)
             else:
                 chk.traces_validated += 1
     # ---- 4. dynamic catalogue
